@@ -8,6 +8,7 @@ VERIF_DIR="$(cd "$(dirname "$0")" && pwd)"
 SIM="$VERIF_DIR/sim"
 BIN="$SIM/target/release/resolvo-sim"
 BIN_DA="$SIM/target/relda/resolvo-sim"
+BIN_ASAN="$SIM/target/asan/x86_64-unknown-linux-gnu/release/resolvo-sim"
 PROPS="C01 C02 C03 C04 C05 C06 C07 C08 C09 C10 C11 C12 C13 C14 C15 C16 C20"
 case "${1:-}" in
   determinism)
@@ -21,15 +22,20 @@ case "${1:-}" in
       ( "$BIN_DA" digest $p quick 0 $N > "$TMP/$p.c" ) &
       # split range in another process layout (different process, different start)
       ( "$BIN" digest $p quick $((N/2)) $N > "$TMP/$p.d2"; "$BIN" digest $p quick 0 $((N/2)) > "$TMP/$p.d1" ) &
+      # the sanitizer build runs the same deterministic simulation (memory-error oracle of five properties)
+      runs="b c d"
+      case "$p" in C04|C10|C13|C16|C20)
+        if [ -x "$BIN_ASAN" ]; then ( ASAN_OPTIONS=detect_leaks=0 "$BIN_ASAN" digest $p quick 0 $N > "$TMP/$p.e" ) & runs="b c d e"; fi ;;
+      esac
       wait
       cat "$TMP/$p.d1" "$TMP/$p.d2" > "$TMP/$p.d"
       lines=$(wc -l < "$TMP/$p.a")
-      for x in b c d; do
+      for x in $runs; do
         if ! cmp -s "$TMP/$p.a" "$TMP/$p.$x"; then
           echo "DETERMINISM MISMATCH property=$p run=$x"; diff "$TMP/$p.a" "$TMP/$p.$x" | head -5; fail=1
         fi
       done
-      echo "$p: $lines digests identical across 2 release processes, the debug-assertions build and a split-range run"
+      echo "$p: $lines digests identical across 2 release processes, the debug-assertions build and a split-range run$( [ "$runs" = "b c d e" ] && echo ', and the sanitizer build')"
     done
     rm -rf "$TMP"
     exit $fail ;;
